@@ -157,6 +157,9 @@ func vttGenModel(r *fw.Rand, forWriter bool) vttModel {
 		if e >= 100*3600000 {
 			e = 100*3600000 - 1
 		}
+		if k > 0 && r.P(1, 8) {
+			s, e = m.Cues[k-1].Start, m.Cues[k-1].End // two cues shown over the same interval
+		}
 		c := vttCue{Start: s, End: e, ID: k + 1}
 		if r.P(1, 6) {
 			c.ID = r.Range(1, 99999)
